@@ -55,7 +55,7 @@ theorem qv_step (d fuel : Nat) (he : QE d fuel) (hm : QM d fuel) : QV d (fuel + 
   · rw [if_pos h123] at hp
     have hc : c = 123 := by simpa using h123
     subst hc
-    obtain ⟨st1, hin1, hs1, hk1, hrun⟩ := step_open_object d hv rest i
+    obtain ⟨st1, hin1, hs1, hk1, _, _, hrun⟩ := step_open_object d hv rest i
     rw [hrun]
     cases hsk : skipWs rest (i + 1) with
     | mk r1 i1 =>
@@ -81,7 +81,7 @@ theorem qv_step (d fuel : Nat) (he : QE d fuel) (hm : QM d fuel) : QV d (fuel + 
   · rw [if_pos h91] at hp
     have hc : c = 91 := by simpa using h91
     subst hc
-    obtain ⟨st1, hin1, hs1, hk1, hrun⟩ := step_open_array d hv rest i
+    obtain ⟨st1, hin1, hs1, hk1, _, _, hrun⟩ := step_open_array d hv rest i
     rw [hrun]
     cases hsk : skipWs rest (i + 1) with
     | mk r1 i1 =>
@@ -153,7 +153,7 @@ theorem qe_step (d fuel : Nat) (hv : QV d fuel) (he : QE d fuel) : QE d (fuel + 
     rcases resume_cases d st r0 j0 s i hsk0 with ⟨hnil, _⟩ | ⟨c, rest, hs, hw, hres⟩
     · subst hnil; rw [parseValue_nil] at hpv; cases hpv
     rw [hres, ← hs]
-    obtain ⟨st1, hav1, hsame1⟩ := (pv_all d fuel).1 s i v1 r1 j1 hpv st (false :: stack) hve
+    obtain ⟨st1, hav1, hsame1, _, _, _⟩ := (pv_all d fuel).1 s i v1 r1 j1 hpv st (false :: stack) hve
       (fun c' bs' h => by rw [hs] at h; cases h; exact hw)
     rw [hsame1.accepting]
     have l1 := (len_all fuel).1 _ _ _ _ _ hpv
@@ -205,7 +205,7 @@ theorem qm_step (d fuel : Nat) (hv : QV d fuel) (hm : QM d fuel) : QM d (fuel + 
       rw [hsc] at hp
       simp only [] at hp
       have l0 := scanString_len _ _ _ _ hsc
-      obtain ⟨k, hkrun⟩ := step_key d hin hkey hs rest i r1 j1 hsc
+      obtain ⟨k, _, hkrun⟩ := step_key d hin hkey hs rest i r1 j1 hsc
       rw [hkrun]
       cases hsk : skipWs r1 j1 with
       | mk r2 j2 =>
@@ -241,7 +241,7 @@ theorem qm_step (d fuel : Nat) (hv : QV d fuel) (hm : QM d fuel) : QM d (fuel + 
                 rcases resume_cases d { st with state := Gen.sVA, key := some k } r3 (j2 + 1) r4 j4 hsk4 with ⟨hnil, _⟩ | ⟨z, r4', hz, hzw, hres4⟩
                 · subst hnil; rw [parseValue_nil] at hpv; cases hpv
                 rw [hres4, ← hz]
-                obtain ⟨st3, hav3, hsame3⟩ := (pv_all d fuel).1 r4 j4 v1 r5 j5 hpv _ (true :: stack) hve3
+                obtain ⟨st3, hav3, hsame3, _, _, _⟩ := (pv_all d fuel).1 r4 j4 v1 r5 j5 hpv _ (true :: stack) hve3
                   (fun c' bs' h => by rw [hz] at h; cases h; exact hzw)
                 rw [hsame3.accepting]
                 have l3 := (len_all fuel).1 _ _ _ _ _ hpv
@@ -324,7 +324,7 @@ theorem unmarshalIn_sound (h : Heap) (ho : HeapOrd h) (data : Bytes) (h' : Heap)
           obtain ⟨v1, r1, j1⟩ := x
           rw [hpv] at hpr
           simp only [] at hpr
-          obtain ⟨st', hav, hsame⟩ := (pv_all (h.addData data).2 _).1 _ _ _ _ _ hpv _ [] hve
+          obtain ⟨st', hav, hsame, _, _, _⟩ := (pv_all (h.addData data).2 _).1 _ _ _ _ _ hpv _ [] hve
             (fun c' bs' he => by cases he; exact skipWs_head _ _ _ _ _ hsk)
           rw [hsame.accepting] at hacc
           cases hsk2 : skipWs r1 j1 with
